@@ -45,19 +45,21 @@ const (
 var cbNames = []string{"accept", "not-coordinator", "coordinator-not-available", "metadata-too-large", "load-in-progress", "unknown-topic", "other", "omit-block", "drop", "coordinator-moved", "partial"}
 
 type omScenario struct {
-	Brokers       int
-	Parts         int
-	Auto          bool
-	IntervalMs    int
-	RetryMax      int
-	Retention     time.Duration
-	Initial       int64    // OffsetOldest / OffsetNewest
-	Stored        []int64  // initial stored offset per partition, -1 = none
-	Markers       int      // goroutines
-	Ops           [][]omOp // per marker
-	Behaviours    []int
-	Steer         []steerSpec // kinds: built-marks | resp-marks
-	ManualCommits int
+	Topics          int   // partitions are spread round-robin over this many topics
+	CloseBehaviours []int // behaviours of commit attempts arriving after Close was called (len <= Offsets.Retry.Max: the last attempt is accepted)
+	Brokers         int
+	Parts           int
+	Auto            bool
+	IntervalMs      int
+	RetryMax        int
+	Retention       time.Duration
+	Initial         int64    // OffsetOldest / OffsetNewest
+	Stored          []int64  // initial stored offset per partition, -1 = none
+	Markers         int      // goroutines
+	Ops             [][]omOp // per marker
+	Behaviours      []int
+	Steer           []steerSpec // kinds: built-marks | resp-marks
+	ManualCommits   int
 }
 
 type omOp struct {
@@ -221,7 +223,22 @@ func omScenarioFor(rng *rand.Rand, tier string) *omScenario {
 		}
 	}
 	sc.ManualCommits = 2 + rng.Intn(8)
+	sc.Topics = 1 + rng.Intn(3)
+	if sc.Auto && sc.RetryMax > 0 && rng.Intn(2) == 0 {
+		n := 1 + rng.Intn(sc.RetryMax)
+		for i := 0; i < n; i++ {
+			sc.CloseBehaviours = append(sc.CloseBehaviours, []int{cbPartial, cbLoadInProgress, cbPartial, cbNotCoordinator, cbOmitBlock}[rng.Intn(5)])
+		}
+	}
 	return sc
+}
+
+func (sc *omScenario) topicOf(p int) (string, int32) {
+	t := sc.Topics
+	if t < 1 {
+		t = 1
+	}
+	return fmt.Sprintf("t%d", p%t), int32(p / t)
 }
 
 func (sc *omScenario) describe() map[string]interface{} {
@@ -234,7 +251,7 @@ func (sc *omScenario) describe() map[string]interface{} {
 		n += len(o)
 	}
 	return map[string]interface{}{"brokers": sc.Brokers, "partitions": sc.Parts, "auto_commit": sc.Auto, "interval_ms": sc.IntervalMs, "offsets_retry_max": sc.RetryMax,
-		"retention": sc.Retention.String(), "initial": sc.Initial, "stored": sc.Stored, "markers": sc.Markers, "operations": n, "commit_behaviours": bw, "steer": sc.Steer}
+		"topics": sc.Topics, "close_behaviours": sc.CloseBehaviours, "retention": sc.Retention.String(), "initial": sc.Initial, "stored": sc.Stored, "markers": sc.Markers, "operations": n, "commit_behaviours": bw, "steer": sc.Steer}
 }
 
 type omResult struct {
@@ -277,11 +294,18 @@ func runOM(sc *omScenario, rng *rand.Rand) *omResult {
 	var mu sync.Mutex
 	sim := sarama.VNewSim(simSocketDir(), sc.Brokers)
 	defer sim.Close()
-	sim.CreateTopic("t", sc.Parts, 0)
+	nt := sc.Topics
+	if nt < 1 {
+		nt = 1
+	}
+	for t := 0; t < nt; t++ {
+		sim.CreateTopic(fmt.Sprintf("t%d", t), (sc.Parts+nt-1)/nt, 0)
+	}
 	const group = "g"
 	for p, st := range sc.Stored {
 		if st >= 0 {
-			sim.SetStoredOffset(group, "t", int32(p), st, fmt.Sprintf("init%d", p))
+			tn, tp := sc.topicOf(p)
+			sim.SetStoredOffset(group, tn, tp, st, fmt.Sprintf("init%d", p))
 		}
 	}
 	sink := newSink()
@@ -290,15 +314,24 @@ func runOM(sc *omScenario, rng *rand.Rand) *omResult {
 	sink.extra = func() int64 { return sim.Progress() + atomic.LoadInt64(&appProgress) }
 
 	var bi int32
+	var closing, ci int32
 	sim.OnGroup = func(ctx *sarama.VSimGroupCtx) sarama.VSimGroupAction {
 		if ctx.Kind != "commit" {
 			return sarama.VSimGroupAction{}
 		}
-		i := int(atomic.AddInt32(&bi, 1)) - 1
-		if i >= len(sc.Behaviours) {
-			return sarama.VSimGroupAction{}
+		beh := cbAccept
+		if atomic.LoadInt32(&closing) == 1 {
+			j := int(atomic.AddInt32(&ci, 1)) - 1
+			if j < len(sc.CloseBehaviours) {
+				beh = sc.CloseBehaviours[j]
+			}
+		} else {
+			i := int(atomic.AddInt32(&bi, 1)) - 1
+			if i < len(sc.Behaviours) {
+				beh = sc.Behaviours[i]
+			}
 		}
-		switch sc.Behaviours[i] {
+		switch beh {
 		case cbNotCoordinator:
 			return sarama.VSimGroupAction{Kind: sarama.VGError, Code: sarama.ErrNotCoordinatorForConsumer}
 		case cbCoordNotAvailable:
@@ -354,7 +387,8 @@ func runOM(sc *omScenario, rng *rand.Rand) *omResult {
 	poms := make([]sarama.PartitionOffsetManager, sc.Parts)
 	var drain sync.WaitGroup
 	for p := 0; p < sc.Parts; p++ {
-		pom, err := om.ManagePartition("t", int32(p))
+		tn, tp := sc.topicOf(p)
+		pom, err := om.ManagePartition(tn, tp)
 		if err != nil {
 			res.newErr = fmt.Errorf("ManagePartition: %v", err)
 			return res
@@ -485,6 +519,7 @@ func runOM(sc *omScenario, rng *rand.Rand) *omResult {
 	go func() {
 		defer close(closeDone)
 		res.closeCall = sarama.VerifNextSeq()
+		atomic.StoreInt32(&closing, 1)
 		for _, pom := range poms {
 			pom.AsyncClose()
 		}
@@ -504,7 +539,8 @@ func runOM(sc *omScenario, rng *rand.Rand) *omResult {
 	res.hooks = sink.snapshot()
 	res.group = sim.GroupEvents()
 	for p := 0; p < sc.Parts; p++ {
-		o, m, ok := sim.StoredOffset(group, "t", int32(p))
+		tn, tp := sc.topicOf(p)
+		o, m, ok := sim.StoredOffset(group, tn, tp)
 		res.final = append(res.final, omState{o, m})
 		res.finalOK = append(res.finalOK, ok)
 	}
@@ -594,7 +630,7 @@ func judgeOM(res *omResult) proto.Rec {
 		nobs := 0
 		for _, f := range flushes {
 			for _, b := range f.blocks {
-				if int(b.Partition) == p {
+				if tn, tp := sc.topicOf(p); b.Topic == tn && b.Partition == tp {
 					ops = append(ops, porcupine.Operation{ClientId: 100, Input: omInput{Kind: "commit"}, Call: f.start, Output: omOutput{b.Offset, b.Metadata}, Return: f.built})
 					nobs++
 				}
@@ -662,20 +698,21 @@ func judgeOM(res *omResult) proto.Rec {
 		var prev *sarama.VSimGroupEvent
 		for i := range commits {
 			c := commits[i]
-			code, has := c.PartCodes[fmt.Sprintf("t/%d", p)]
+			tn, tp := sc.topicOf(p)
+			code, has := c.PartCodes[fmt.Sprintf("%s/%d", tn, tp)]
 			if !has || code != 0 {
 				continue
 			}
 			var off int64
 			for _, b := range c.Blocks {
-				if int(b.Partition) == p {
+				if b.Topic == tn && b.Partition == tp {
 					off = b.Offset
 				}
 			}
 			if prev != nil {
 				var poff int64
 				for _, b := range prev.Blocks {
-					if int(b.Partition) == p {
+					if b.Topic == tn && b.Partition == tp {
 						poff = b.Offset
 					}
 				}
